@@ -15,7 +15,7 @@ from __future__ import annotations
 
 import random
 
-from ..common import Run, main_wrapper, parse_args, MachineryError, cps, uncps
+from ..common import Run, main_wrapper, parse_args, MachineryError, cps, uncps, fresh
 from .. import tlc, session, gen
 from . import docs, docprops as dp
 
@@ -66,7 +66,7 @@ def sess_transpose(seed, core=True, ncalls=12, rows=12):
         ref = len(evs)
         for iv in r.sample(INTERVALS, ncalls):
             up = r.random() < 0.5
-            d = 'up' if up else 'down'
+            d = fresh('up' if up else 'down') if (len(evs) + int(up)) % 2 else ('up' if up else 'down')   # an ordinary string / the literal
             # every transposition starts from a FRESH import of the same text (the source-mutation finding must not leak
             # from one transposition into the next one)
             src, _ = kp.loads(text)
@@ -80,7 +80,7 @@ def sess_transpose(seed, core=True, ncalls=12, rows=12):
             ev['src_after'] = res_of(lambda: kp.dumps(src))
             ev['snap'] = session.snapshot(src)
             if ev['res']['ok']:
-                ev['back'] = res_of(lambda: kp.dumps(state['t'].to_transposed(iv, 'down' if up else 'up')))
+                ev['back'] = res_of(lambda: kp.dumps(state['t'].to_transposed(iv, fresh('down' if up else 'up'))))
             else:
                 ev['back'] = {'ok': False, 'grid': [], 'exc': ''}
             evs.append(ev)
@@ -110,7 +110,7 @@ def sess_repetition(seed, target_rows=1150):
     long_text = session.render([lines[0]] + block * K + [lines[-1]])
     for iv in r.sample(INTERVALS, 2):
         up = r.random() < 0.5
-        d = 'up' if up else 'down'
+        d = fresh('up' if up else 'down')
         src, _ = kp.loads(text)
         ev = {'ev': 'transpose', 'iv': iv, 'up': up, 'ref': ref}
         state = {}
@@ -121,7 +121,7 @@ def sess_repetition(seed, target_rows=1150):
         ev['res'] = res_of(fwd)
         ev['src_after'] = res_of(lambda: kp.dumps(src))
         ev['snap'] = session.snapshot(src)
-        ev['back'] = res_of(lambda: kp.dumps(state['t'].to_transposed(iv, 'down' if up else 'up'))) if ev['res']['ok'] else {'ok': False, 'grid': [], 'exc': ''}
+        ev['back'] = res_of(lambda: kp.dumps(state['t'].to_transposed(iv, fresh('down' if up else 'up')))) if ev['res']['ok'] else {'ok': False, 'grid': [], 'exc': ''}
         evs.append(ev)
         # the long score
         try:
